@@ -208,6 +208,16 @@ def vmdk_params(draw, safe=None):
              fill=draw(fills),
              newline=draw(st.sampled_from(['\n', '\n', '\r\n'])),
              desc_num=draw(st.sampled_from([None, None, 1, 2, 20])))
+    # layout of the descriptor inside its sectors: text that fills them
+    # exactly (no NUL behind it), no newline after the last line, the
+    # createType line last
+    if draw(st.integers(0, 3)) == 0:
+        p['exact_fill'] = True
+        p['desc_num'] = None
+    if draw(st.integers(0, 3)) == 0:
+        p['final_newline'] = False
+    if draw(st.integers(0, 3)) == 0:
+        p['type_last'] = True
     if p['desc_num'] is not None:
         text_len = sum(len(x) + len(p['newline']) for x in p['lines'])
         if p['desc_num'] * 512 < text_len + 1:
